@@ -21,6 +21,9 @@ type check struct {
 
 var checks = map[string]check{}
 
+// replayHook re-executes a recorded case (set by grp_replay.go; absent in the build-variant binaries).
+var replayHook func(c *kc.Ctx, prop string) bool
+
 // emitMode: print cases as JSON lines instead of comparing (used for the constantTime child binary).
 var emitMode bool
 
@@ -74,6 +77,9 @@ func main() {
 	// Broken Lean obligations: the property is no longer shown by proof (DESIGN §4). The
 	// correspondence and search still run; if they find no failing input the verdict is
 	// VIOLATION … no-failing-input-found.
+	if c.ReplayFile != "" && replayHook != nil {
+		replayHook(c, *prop)
+	}
 	ck.run(c)
 	if emitMode {
 		os.Exit(0)
